@@ -253,3 +253,22 @@ Print Assumptions C04_stale_sequence_keys_refuted.
 Theorem C04_keys_check_sound : forall carry ks, seq_keys_ok carry ks = true -> keys_independent carry ks.
 Proof. exact seq_keys_ok_sound. Qed.
 Print Assumptions C04_keys_check_sound.
+
+(* ---- glue hypothesis of HMC/NUTS: the kernel's target is exp(block log-density), ZERO where the
+   log-density is undefined or -inf: such a state is never entered from the support ... ---- *)
+Theorem C04_zero_weight_never_entered :
+  forall (X : Type) (eqb : X -> X -> bool), eqb_ok eqb ->
+  forall (xs : list X) (w : X -> R) (T : X -> X) (x y : X),
+  0 < w x -> w y = 0 -> x <> y -> involutive_kernel eqb xs w T x y = 0.
+Proof. exact thm_zero_weight_never_entered. Qed.
+Print Assumptions C04_zero_weight_never_entered.
+
+(* ... and replacing an undefined log-density by a finite number (nan_to_num: 0.0, weight exp 0) is refuted:
+   the kernel enters the state outside the support and the true target is not invariant *)
+Theorem C04_nan_to_num_target_refuted :
+  (forall x, In x xs01 -> swap01 (swap01 x) = x) /\
+  involutive_kernel Nat.eqb xs01 w_true swap01 0%nat 1%nat = 0 /\
+  involutive_kernel Nat.eqb xs01 w_num swap01 0%nat 1%nat = 1 /\
+  ~ invariant xs01 w_true (involutive_kernel Nat.eqb xs01 w_num swap01).
+Proof. exact thm_nan_to_num_target_refuted. Qed.
+Print Assumptions C04_nan_to_num_target_refuted.
